@@ -126,6 +126,7 @@ struct Opts {
   bool temps = true;
   bool ctors = true;
   bool extras = true;  // AMC_NONSTD_FEATURES
+  bool hint_only = false;  // C12 grid: only plain insert / erase (to reach every subset) and every hinted insertion
 };
 
 // private-state refinement of the key (detection idiom; falls back when the member is renamed)
@@ -166,6 +167,15 @@ inline void enumerate(const World &w, const Opts &o, std::vector<Op> &out) {
       out.push_back(op);
     };
     (void)cap_lim;
+    if (o.hint_only) {
+      for (int key = 0; key < KEYS; ++key) {
+        add(INSERT_C, key);
+        add(ERASE_KEY, key);
+        for (int h = 0; h <= sz; ++h) { add(HINT_C, h, key); add(HINT_M, h, key); add(EMPLACE_HINT, h, key); }
+      }
+      if (kFlat && o.extras) { add(RESERVE, KEYS + 1); add(SHRINK); }
+      continue;
+    }
     for (int key = 0; key < KEYS; ++key) {
       add(INSERT_C, key); add(INSERT_M, key); add(EMPLACE, key);
       for (int h = 0; h <= sz; ++h) { add(HINT_C, h, key); add(HINT_M, h, key); add(EMPLACE_HINT, h, key); }
